@@ -259,7 +259,9 @@ def wrapper_pipeline(run, prop, names, negs, classes, random_n=0, extra_invs=Non
         wrapper_liveness(run, names, negs, temporal, serve)
     for prefix in sorted(kinds):
         test = "^TestBlockingReplay$" if prefix == "blocking" else "^TestQueueReplay$"
-        out, _ = run.go(test, env={"VERIF_IN": indir}, timeout=1500)
+        # once the real-time scenarios have established a violation, a replay that stalls on the virtual clock (a change that
+        # makes a caller wait for a mutex is not "durably blocked" there) is not waited for long
+        out, _ = run.go(test, env={"VERIF_IN": indir}, timeout=240 if run.violations else 1500)
         reps = json.load(open(os.path.join(out, prefix + "_replay.json")))
         steps = conf = 0
         for rep in reps:
